@@ -20,6 +20,20 @@ THEOREMS = [
     "Mesa.Legacy.C08_moveToOneOf_lands_on_offered",
     "Mesa.Legacy.C08_closest_minimises_distance",
     "Mesa.Legacy.C08_distance_is_torus_metric",
+    "Mesa.Legacy.C08_remove_takes_out_or_changes_nothing",
+    "Mesa.Legacy.C08_remove_foreign_agent",
+    "Mesa.Legacy.C08_place_appends",
+    "Mesa.Legacy.C08_move_contents",
+    "Mesa.Legacy.C08_swap_exchanges",
+    "Mesa.Legacy.C08_isCellEmpty_any_integers",
+    "Mesa.Legacy.C08_slices_select_in_range_indices",
+    "Mesa.Legacy.C08_indexing_shows_cells",
+    "Mesa.Legacy.C08_network_views_agree_all_histories",
+    "Mesa.Legacy.C08_network_step_keeps_agreement",
+    "Mesa.Legacy.C08_network_pos_is_the_one_node",
+    "Mesa.Legacy.C08_network_emptiness_and_contents_views",
+    "Mesa.Legacy.C08_network_move_lands_or_rejects",
+    "Mesa.Legacy.C08_network_place_remove",
     "Mesa.Legacy.C18_legacy_move_reject_unchanged",
     "Mesa.Legacy.C18_legacy_place_reject_unchanged",
     "Mesa.Legacy.C18_legacy_remove_reject_unchanged",
@@ -28,6 +42,10 @@ THEOREMS = [
     "Mesa.Legacy.C18_legacy_moveToEmpty_reject_unchanged",
     "Mesa.Legacy.C18_legacy_step_reject_unchanged",
     "Mesa.Legacy.C18_legacy_rejected_calls_deletable",
+    "Mesa.Legacy.C18_legacy_reads_same_after_deletion",
+    "Mesa.Legacy.C18_legacy_net_step_reject_unchanged",
+    "Mesa.Legacy.C18_legacy_net_rejects_exactly",
+    "Mesa.Legacy.C18_legacy_net_rejected_calls_deletable",
 ]
 COUNTS = {"quick": 1600, "thorough": 60000}
 TRUSTED = [
@@ -35,42 +53,85 @@ TRUSTED = [
     "numpy boolean array indexing of `_empty_mask` (modelled as a function cell -> Bool)",
     "cutoff_empties = 7.953 * num_cells ** 0.384 (float formula; its floor is read from the running grid and sent in the scenario header)",
     "random.Random.shuffle / choice / randrange of CPython 3.12 draw through _randbelow as modelled (Fisher-Yates from the top, choice = seq[_randbelow(len)])",
-    "place_agent / is_cell_empty are only called with in-grid coordinates (C08's quantifier); Python's negative-index aliasing outside the grid is not modelled",
+    "networkx node bookkeeping: G.nodes[v] raises KeyError exactly for a node that is not in the graph; iteration over G is in insertion order (the protocol builds range(n))",
+    "place_agent is only called with in-grid coordinates (C08's quantifier); its negative-index aliasing is not modelled (the read paths' is)",
+    "CPython list indexing / slicing semantics (modelled: pyIndex, sliceIndices = PySlice_AdjustIndices + range; compared exhaustively on small lists on every run)",
 ]
 ASSUMPTIONS = ["place_agent is called for an unplaced agent at in-grid coordinates (the property's quantifier)",
                "hex variants: the mutating calls are inherited unchanged from SingleGrid / MultiGrid (checked by running all four classes)"]
 RULE = ("random histories on all four grid classes: sizes 1x1..5x5 (62%), tiny grids that fill up (20%), 6x6..8x8 where move_to_empty samples "
         "(18%); torus on/off; with/without property layers; 1-7 agents; 5-40 (thorough: 60) ops from {place, remove, move (in-grid, near and far "
         "out-of-grid targets), swap, move_to_empty (scripted draws), move_agent_to_one_of (random/closest/invalid, duplicates, out-of-grid "
-        "offers, empty list with all handle_empty modes), empties, exists_empty_cells, is_cell_empty, empty_mask, agents, iteration, indexing}; "
+        "offers, empty list with all handle_empty modes), empties, exists_empty_cells, is_cell_empty, empty_mask, agents, iteration, indexing "
+        "(grid[x, y], and 5% of the reads: is_cell_empty / grid[x] with ints in and beyond -n..n-1, grid[ix, iy] with slices whose bounds exceed the "
+        "size and steps in {None, 1, 2, 3, -1, -2, 0}, grid[(x1, y1), ...], torus_adj, out_of_bounds)}; exhaustive index/slice enumeration on "
+        "three small grids every within-quantifier history of length <= 3 of place / remove / move / swap with two agents on a 2x1 SingleGrid and MultiGrid (torus on/off; "
+        "length <= 2 again after empties was built), and every within-quantifier NetworkGrid history of length <= 3 (two agents) / <= 4 (one agent) over two nodes and a missing one "
+        "first on every run (builtin_corpus); "
         "30% of histories read empties only in their second half; 15% of histories are from the rejecting-call stream (generate_rejecting: most agents placed first, then half of the calls are chosen to be rejected: out-of-grid / occupied targets, unplaced agents, full grid, invalid selection, exhausted generator); a full dump (pos, contents, mask, is_cell_empty) follows every mutating call; 4% of the histories additionally place already-placed agents (outside the quantifier: model-vs-code tie only, no oracle). "
-        "non-trivial = at least 3 successful mutating calls and at least one read of empties / exists / move_to_empty")
+        "12% of all scenarios are NetworkGrid-as-a-space histories (random simple graphs with 1-7 nodes, 1-6 agents, place / move / remove with 12% "
+        "(rejecting stream 45%) of the targets missing nodes, unplaced agents moved / removed, moves onto the own node, is_cell_empty / "
+        "get_cell_list_contents / iter_cell_list_contents (also with missing nodes) / get_all_cell_contents / agents / get_neighbors, a dump after every "
+        "mutating call). non-trivial = at least 3 successful mutating calls and at least one read of empties / exists / move_to_empty "
+        "(NetworkGrid: at least 3 successful mutating calls, one of them a move)")
+
+
+NET_SHARE = 0.12  # NetworkGrid-as-a-space histories
 
 
 def generate(rng, tier, count):
     for _ in range(count):
-        yield L.gen_c08(rng, tier, rejecting=rng.random() < 0.15)
+        if rng.random() < NET_SHARE:
+            yield L.gen_c08_net(rng, tier, rejecting=rng.random() < 0.3)
+        else:
+            yield L.gen_c08(rng, tier, rejecting=rng.random() < 0.15)
 
 
 def generate_rejecting(rng, tier, count):
     for _ in range(count):
-        yield L.gen_c08(rng, tier, rejecting=True)
+        if rng.random() < NET_SHARE:
+            yield L.gen_c08_net(rng, tier, rejecting=True)
+        else:
+            yield L.gen_c08(rng, tier, rejecting=True)
+
+
+def builtin_corpus():
+    return L.exhaustive_index_c08() + L.foreign_agent_scenarios() + L.exhaustive_c08_net() + L.exhaustive_c08_grid()
 
 
 run_impl = L.run_impl
-oracle = L.oracle_c08
+oracle = L.guarded(L.oracle_c08)
 gen_tables = L.gen_tables
 
 MUT = ("place", "remove", "move", "swap", "mte", "mto")
+NMUT = ("nplace", "nremove", "nmove")
 
 
 def nontrivial(sc, obs):
+    if sc.lines[0].split()[1] == "net":
+        n = sum(1 for l, o in zip(sc.lines, obs) if l.split()[0] in NMUT and o == "ok")
+        return n >= 3 and any(l.split()[0] == "nmove" and o == "ok" for l, o in zip(sc.lines, obs))
     n = sum(1 for l, o in zip(sc.lines, obs) if l.split()[0] in MUT and o == "ok")
     return n >= 3 and any(l.split()[0] in ("empties", "exists", "mte") for l in sc.lines)
 
 
 def tags(sc, obs):
     w = sc.lines[0].split()
+    if w[1] == "net":
+        if sc.meta.get("oq"):
+            yield "stream:outside-quantifier(tie only)"
+        yield "kind:network"
+        n = int(w[2])
+        for l, o in zip(sc.lines[1:], obs[1:]):
+            t = l.split()
+            if t[0] == "ndump":
+                continue
+            yield "op:" + t[0]
+            if o.startswith("err"):
+                yield f"reject:{t[0]}:{o.split()[1]}"
+            if t[0] in ("nplace", "nmove") and int(t[2]) >= n:
+                yield "branch:net-target-node-missing"
+        return
     if sc.meta.get("oq"):
         yield "stream:outside-quantifier(tie only)"
     yield "kind:" + w[2]
